@@ -34,6 +34,10 @@ const maxTasks = 8
 // singleCaseProcess is set by the "exec" command (one case per process).
 var singleCaseProcess bool
 
+// poolKeep is set in batches run by the race build whose sync.Pool keeps
+// everything that is Put (build.sh build_race_keep).
+var poolKeep bool
+
 type msched struct {
 	active   bool
 	n        int
@@ -276,6 +280,7 @@ type MTask struct {
 type MultiCase struct {
 	Engine    string   `json:"engine"`
 	Race      bool     `json:"race"`
+	Pool      string   `json:"pool,omitempty"` // "keep": race build whose sync.Pool never drops, GOMAXPROCS 1
 	Seed      uint64   `json:"seed"`
 	Strategy  int      `json:"strategy"`
 	PNum      int      `json:"p_num"`
@@ -803,6 +808,9 @@ func (multiEngine) Exec(ci interface{}, st *Stats) (*Violation, interface{}, boo
 	if c.Procs > 0 {
 		goruntime.GOMAXPROCS(c.Procs)
 	}
+	if c.Pool == "keep" {
+		goruntime.GOMAXPROCS(1)
+	}
 	v := execMulti(c, st)
 	if v == nil && singleCaseProcess {
 		// A fresh process performs many first-use initialisations inside the
@@ -1051,6 +1059,7 @@ func genBuiltinCall(t *rapid.T) string {
 // fragments that exercise interpreter paths known to be sensitive to shared
 // state (literals, error positions, arguments objects, date parsing, ...)
 var jsFragments = []string{
+	"rec(JSON.stringify({a:[1,{b:2}],c:'x',d:{e:[nid()]}},null,2)+JSON.stringify([1,[2,[3]]],null,'\\t')+JSON.stringify({k:1},['k'],' '))",
 	"var jp=JSON.parse('{\"b\":1,\"a\":{\"z\":1,\"y\":2,\"x\":3,\"w\":4},\"c\":[{\"q\":1,\"p\":2,\"o\":3}],\"d\":4,\"e\":5}');rec(Object.keys(jp).join()+Object.keys(jp.a).join()+Object.keys(jp.c[0]).join()+JSON.stringify(jp))",
 	"rec(JSON.stringify(JSON.parse('{\"k3\":1,\"k1\":2,\"k2\":{\"n\":null,\"m\":true}}',function(k,v){rec(k);return v})))",
 	"rec(/a(b)?c/g.exec('xabcabc')+'|'+'aXbX'.replace(/X/g,'-'))",
@@ -1144,6 +1153,9 @@ func (multiEngine) Gen(t *rapid.T, tier string) interface{} {
 	c.PNum = 1
 	c.PDen = []int{1, 2, 4, 16, 64, 256}[rapid.IntRange(0, 5).Draw(t, "pden")]
 	c.Procs = []int{1, 1, 2, 4}[rapid.IntRange(0, 3).Draw(t, "procs")]
+	if poolKeep {
+		c.Pool = "keep"
+	}
 	c.TplChan = rapid.IntRange(0, 3).Draw(t, "tplchan") == 3
 	c.TplNoSeed = rapid.IntRange(0, 3).Draw(t, "tplnoseed") == 3
 	c.ByteSrc = rapid.IntRange(0, 2).Draw(t, "bytesrc") == 2
